@@ -113,6 +113,8 @@ class C18(PropBase):
                 "and the WinNT.h / Breakpad architecture numbers select exactly their types; c18_read_registers: on the deserialised context "
                 "(byte offsets regenerated from format.rs, both byte orders, ALL byte strings) every accepted name reads the number in the "
                 "size_of::<Register>() bytes at its location's offset, inside the Register type, different registers in disjoint bytes. "
+                "c18_documented_registers / c18_documented_aliases: REGISTERS, the alias arms and the sp / ip register names of every type "
+                "equal the documented lists written out in the theorems (the oracle holds the same independent lists). "
                 "c18_write_sequence: a sequence of set_register calls of ANY length through ANY strings never panics and every name then "
                 "reads the last value written through any spelling of its register (the dedicated accessors too). "
                 "Proof by a diagnostic checker evaluated on the generated tables and lifted by generic lemmas. "
